@@ -52,6 +52,11 @@ def cases(tier):
         for p in range(nnum):        # every numeric operand position once with an operand that needs a temporary
             nums = [("INT(S{k})" if k == p else "S{k}").format(k=k + 1) for k in range(nnum)]
             combos.append((1, 1, nums, [STR_OPERANDS[0].format(k=k + 1) for k in range(nstr)]))
+        if nnum >= 2:                # every numeric operand a function nested in a function: 2·nnum temporaries alive at once
+            combos.append((1, 1, ["INT(INT(S{k}))".format(k=k + 1) for k in range(nnum)],
+                           [STR_OPERANDS[0].format(k=k + 1) for k in range(nstr)]))
+            combos.append((1, 1, [("INT(INT(S{k}))" if k % 2 == 0 else "INT(S{k})").format(k=k + 1) for k in range(nnum)],
+                           [STR_OPERANDS[0].format(k=k + 1) for k in range(nstr)]))
         for special in ("-S{k}+8", "NOT S{k}", "+S{k}"):   # ... and once with an operand that starts with a sign / NOT
             for p in range(nnum):
                 nums = [(special if k == p else "S{k}").format(k=k + 1) for k in range(nnum)]
@@ -94,6 +99,13 @@ def operand_texts(srcs):
     numeric temporary (numbered in operand order) filled by its wrapper call beforehand"""
     ops, wrappers, n = [], [], 0
     for x in srcs:
+        m2 = re.match(r"^INT\(INT\((.*)\)\)$", x)
+        if m2:                      # innermost first: the inner call fills tmp_n, the outer one reads it and fills tmp_n+1
+            n += 2
+            ops.append(f"tmp_{n}")
+            wrappers.append(f"RUN ecb_int({operand_text(m2.group(1))}, tmp_{n - 1})")
+            wrappers.append(f"RUN ecb_int(tmp_{n - 1}, tmp_{n})")
+            continue
         m = re.match(r"^(INT|BUTTON)\((.*)\)$", x)
         if m:
             n += 1
